@@ -13,7 +13,7 @@ func init() {
 		ID: "C05", Level: "exploration", PanicClause: "C05.panic",
 		Cases: func(tier string) int {
 			if tier == "quick" {
-				return 3888
+				return 5184
 			}
 			return 192000
 		},
